@@ -1404,6 +1404,10 @@ def target_worker_thread(host: str, port: int, shared_aconf: AuditConf) -> Tuple
     except Exception:
         ret = -1
         string_output = "An exception occurred while scanning %s:%d:\n%s" % (host, port, str(traceback.format_exc()))
+    finally:
+        # Discard this thread's copy of the algorithm databases.  Worker threads are re-used for several targets, and scans edit their copy in place (Terrapin warnings, key size notes, ...); those edits must not leak into the next target's report.
+        SSH1_KexDB.thread_exit()
+        SSH2_KexDB.thread_exit()
 
     return ret, string_output
 
